@@ -66,7 +66,8 @@ def collect(chk):
             pre = jds if rng.random() < 0.5 else rng.choice(fam)
             for g in ([gen] if gen == "motifs" else [gen, "network"]):
                 for rec, _w in stub.enumerate_leaves({"gen": g, "via": rng.choice(["direct", "main"]), "cfg": cname, "jds": jds,
-                                                      "pre_jds": pre, "pre_seed": rng.randrange(1 << 30)}, max_leaves=6):
+                                                      "pre_jds": pre, "pre_seed": rng.randrange(1 << 30),
+                                                      "pre_same_list": rng.random() < 0.5}, max_leaves=6):
                     traces.append(_strip(rec)); chk.rng_leaves += 1
     # (ii) larger sequences under the seeded oracle, all six construction paths
     n_seeded = 3000 if thorough else 400
